@@ -10,6 +10,7 @@ this is just "complete prefix expression").  All operator theorems quantify over
 import DeapModel.Lemmas.C11Ops
 import DeapModel.Lemmas.C11Add
 import DeapModel.Lemmas.C11TotalOps
+import DeapModel.Lemmas.C11Ex
 
 namespace C11
 open GpTree
@@ -22,43 +23,6 @@ def WellFormed (sub : Nat → Nat → Bool) (σ : Nat) (l : List Prim) : Prop :=
 theorem wellFormed_iff_typed {sub σ l} : WellFormed sub σ l ↔ typed sub [σ] l = true :=
   typed_iff_tree.symm
 
-/-! ### a concrete strongly typed set used by the `example`s: types 0 = `object`, 1 ⊇ 2 -/
-def exSub : Nat → Nat → Bool := fun a b => a == b || b == 0 || (a == 2 && b == 1)
-def pAdd : Prim := ⟨"add", 1, [1, 1], .prim, ""⟩
-def pLt : Prim := ⟨"lt", 2, [1, 1], .prim, ""⟩
-def pAnd : Prim := ⟨"and", 2, [2, 2], .prim, ""⟩
-def pOne : Prim := ⟨"1", 1, [], .term, "1"⟩
-def pTrue : Prim := ⟨"True", 2, [], .term, "True"⟩
-def pEph : Prim := ⟨"E", 1, [], .eph, "7"⟩
-def exPs : Pset :=
-  ⟨exSub, fun τ => if τ = 1 then [pAdd, pLt, pAnd] else if τ = 2 then [pLt, pAnd] else [],
-    fun τ => if τ = 1 then [pOne, pTrue, pEph] else if τ = 2 then [pTrue] else [], 1, 3, 3⟩
-
-theorem exSub_refl : ∀ a, exSub a a = true := by intro a; simp [exSub]
-theorem exSub_trans : ∀ a b c, exSub a b = true → exSub b c = true → exSub a c = true := by
-  intro a b c; simp [exSub]; omega
-theorem exPs_ok : PsetOK exPs where
-  refl := exSub_refl
-  trans := exSub_trans
-  prims_ok := by
-    intro τ p hp
-    simp only [exPs] at hp ⊢
-    split at hp
-    · subst τ; simp at hp; rcases hp with rfl | rfl | rfl <;> decide
-    · split at hp
-      · subst τ; simp at hp; rcases hp with rfl | rfl <;> decide
-      · simp at hp
-  terms_ok := by
-    intro τ p hp
-    simp only [exPs] at hp ⊢
-    split at hp
-    · subst τ; simp at hp; rcases hp with rfl | rfl | rfl <;> decide
-    · split at hp
-      · subst τ; simp at hp; subst hp; decide
-      · simp at hp
-
-theorem ex_wf3 : WellFormed exSub 1 [pAdd, pOne, pOne] := wellFormed_iff_typed.2 (by decide)
-theorem ex_wf5 : WellFormed exSub 1 [pAdd, pTrue, pAdd, pOne, pOne] := wellFormed_iff_typed.2 (by decide)
 
 /-! ## Complete prefix expressions -/
 
@@ -94,62 +58,6 @@ theorem typed_iff (sub : Nat → Nat → Bool) (σ : Nat) (l : List Prim) :
 
 /-! ## `searchSubtree` and `height` -/
 
-mutual
-theorem subAt_decomp : ∀ (t : Tree) (i : Nat) (s : Tree), subAt t i = some s →
-    ∃ pre post, flatten t = pre ++ flatten s ++ post ∧ pre.length = i
-  | .node p as, i, s, h => by
-    simp only [subAt] at h
-    split at h
-    · rename_i h0
-      simp at h; subst h; subst h0; exact ⟨[], [], by simp, rfl⟩
-    · rename_i h0
-      obtain ⟨pre, post, e, hl⟩ := subAtF_decomp as (i - 1) s h
-      exact ⟨p :: pre, post, by simp [flatten, e], by simp [hl]; omega⟩
-theorem subAtF_decomp : ∀ (ts : List Tree) (i : Nat) (s : Tree), subAtF ts i = some s →
-    ∃ pre post, flattenF ts = pre ++ flatten s ++ post ∧ pre.length = i
-  | [], _, _, h => by simp [subAtF] at h
-  | t :: ts, i, s, h => by
-    simp only [subAtF] at h
-    split at h
-    · obtain ⟨pre, post, e, hl⟩ := subAt_decomp t i s h
-      exact ⟨pre, post ++ flattenF ts, by simp [flattenF, e], hl⟩
-    · rename_i hge
-      obtain ⟨pre, post, e, hl⟩ := subAtF_decomp ts (i - t.size) s h
-      exact ⟨flatten t ++ pre, post, by simp [flattenF, e], by simp [flatten_length, hl]; omega⟩
-end
-
-mutual
-theorem subAt_wf : ∀ (t : Tree) (i : Nat) (s : Tree), wf t = true → subAt t i = some s → wf s = true
-  | .node p as, i, s, hw, h => by
-    simp only [subAt] at h
-    split at h
-    · simp at h; subst h; exact hw
-    · simp [wf] at hw; exact subAtF_wf as (i - 1) s hw.2 h
-theorem subAtF_wf : ∀ (ts : List Tree) (i : Nat) (s : Tree), wfF ts = true → subAtF ts i = some s → wf s = true
-  | [], _, _, _, h => by simp [subAtF] at h
-  | t :: ts, i, s, hw, h => by
-    simp [wfF] at hw
-    simp only [subAtF] at h
-    split at h
-    · exact subAt_wf t i s hw.1 h
-    · exact subAtF_wf ts (i - t.size) s hw.2 h
-end
-
-mutual
-theorem subAt_exists : ∀ (t : Tree) (i : Nat), i < t.size → ∃ s, subAt t i = some s
-  | .node p as, i, h => by
-    simp only [subAt]
-    split
-    · exact ⟨_, rfl⟩
-    · exact subAtF_exists as (i - 1) (by simp [Tree.size] at h; omega)
-theorem subAtF_exists : ∀ (ts : List Tree) (i : Nat), i < sizeF ts → ∃ s, subAtF ts i = some s
-  | [], _, h => by simp [sizeF] at h
-  | t :: ts, i, h => by
-    simp only [subAtF]
-    split
-    · rename_i hlt; exact subAt_exists t i hlt
-    · exact subAtF_exists ts (i - t.size) (by simp [sizeF] at h; omega)
-end
 
 /-- `searchSubtree` on the prefix form of `t` at index `i` returns exactly the span
 `[i, i + size s)` of the subtree `s` rooted at the `i`-th node, and that slice is `flatten s`. -/
@@ -390,7 +298,7 @@ omit refl trans in
 example : WellFormed exSub 1 [pAdd, pOne, pOne] ∧ WellFormed exSub 1 [pAdd, pTrue, pAdd, pOne, pOne] ∧
     cxOnePoint [pAdd, pOne, pOne] [pAdd, pTrue, pAdd, pOne, pOne] [.pick 1 1, .choice 2 0, .choice 3 0] =
       .ok ([pAdd, pAdd, pOne, pOne, pOne], [pAdd, pTrue, pOne], []) :=
-  ⟨ex_wf3, ex_wf5, by rfl⟩
+  ⟨(wellFormed_iff_typed.2 ex_ty3), (wellFormed_iff_typed.2 ex_ty5), by rfl⟩
 
 /-- `cxOnePointLeafBiased`: same guarantees, for every `termpb` (it always matches return types). -/
 theorem cxlb_closed {r1 r2 : Nat} {ind1 ind2 o1 o2 : List Prim} {termpb : Float} {tp tp' : Tape}
@@ -421,6 +329,16 @@ theorem cxlb_closed {r1 r2 : Nat} {ind1 ind2 o1 o2 : List Prim} {termpb : Float}
 
 omit refl trans in
 example : ∃ o, cxOnePointLeafBiased [pAdd, pOne, pOne] [pOne] 0.5 [] = .ok o := ⟨_, rfl⟩
+
+omit refl trans in
+/-- the swap path: whenever both `random()` draws fall below `termpb` (terminal crossover points), the
+leaves `ind1[1]` and `ind2[4]` of the common type are exchanged -/
+example (x1 x2 termpb : Float) (h1 : decide (x1 < termpb) = true) (h2 : decide (x2 < termpb) = true) :
+    cxOnePointLeafBiased [pAdd, pOne, pEph] [pAdd, pTrue, pAdd, pOne, pEph] termpb
+      [.rnd x1, .rnd x2, .pick 1 1, .choice 2 0, .choice 2 1] =
+    .ok ([pAdd, pEph, pEph], [pAdd, pTrue, pAdd, pOne, pOne], []) := by
+  simp only [cxOnePointLeafBiased, popRnd, h1, h2]
+  rfl
 
 /-! ## Mutations -/
 
@@ -698,6 +616,25 @@ theorem staticLimit_closed (Q : List Prim → Prop) (key : List Prim → Option 
       · exact hop new tp1 hop1 o h'
     · intro new' tp1' e; rw [hop1] at e; simp at e; rw [← e.1]; exact hl
 
+/-- `staticLimit_closed` instantiated: `mutInsert` under a size limit keeps trees well formed and well typed -/
+example (tp tp' : Tape) (outs : List (List Prim))
+    (h : staticLimit (fun l => some l.length) 3
+      (fun args tp => match args with
+        | [x] => (match mutInsert x exPs tp with | .ok (r, tp) => .ok ([r], tp) | .error e => .error e)
+        | _ => .error .raised) [[pAdd, pOne, pOne]] tp = .ok (outs, tp')) :
+    ∀ o ∈ outs, WellFormed exSub 1 o :=
+  (staticLimit_closed (WellFormed exSub 1) _ 3 _ _ outs tp tp'
+    (by intro a ha; simp at ha; subst ha; exact wellFormed_iff_typed.2 ex_ty3)
+    (by intro new tp1 hop n hn
+        simp only at hop
+        split at hop
+        · rename_i r tp2 hins
+          simp at hop; obtain ⟨rfl, _⟩ := hop
+          simp at hn; subst hn
+          exact (insert_closed exSub_refl exSub_trans exPs_ok rfl (wellFormed_iff_typed.2 ex_ty3) hins).1
+        · simp at hop)
+    h).1
+
 /-! ## Totality
 
 A run of the model ends in `.ok result` or in a `Fault`: `raised` (the Python code raises:
@@ -705,13 +642,8 @@ IndexError of `random.choice([])`, of an index past the end, ValueError of the `
 of an empty `randrange`), `fuel` (a modelled loop hit its iteration bound), `tapeEnd` (the tape is
 exhausted) or `mismatch` (the next draw does not answer the call the code makes — an ill-typed tape).
 `Benign n tape r` says: `r` is a result, or the tape is ill-typed, or the tape is shorter than `n`;
-in particular the code never raises and the loop bound is never hit.  `returns_of_total` turns it
+in particular the code never raises and the loop bound is never hit.  `GpTree.total_of_benign` turns it
 into "every well-typed tape of length ≥ n yields a result". -/
-
-/-- a total call returns a result on every well-typed tape that is long enough -/
-theorem returns_of_total {α : Type} {n : Nat} {tp : Tape} {r : R α} (h : Benign n tp r)
-    (hlen : n ≤ tp.length) (hty : r ≠ .error .mismatch) : ∃ x, r = .ok x :=
-  total_of_benign h hlen hty
 
 /-- `generate` (hence `genFull`, `genGrow`) terminates and raises no IndexError: for a primitive set
 in which every requestable type has a terminal and a primitive (`PsetFull`, arities ≤ `A`), for every
@@ -743,22 +675,13 @@ theorem gen_total (ps : Pset) (Rq : Nat → Prop) (A : Nat) (full : PsetFull ps 
       · simp [Benign]
     | _ => simp [Benign]
 
-theorem exPs_full : PsetFull exPs (fun τ => τ = 1 ∨ τ = 2) 2 where
-  terms_ne := by intro τ h; rcases h with rfl | rfl <;> simp [exPs]
-  prims_ne := by intro τ h; rcases h with rfl | rfl <;> simp [exPs]
-  closed := by
-    intro τ h p hp
-    rcases h with rfl | rfl <;> simp [exPs] at hp
-    · rcases hp with rfl | rfl | rfl <;> simp [pAdd, pLt, pAnd]
-    · rcases hp with rfl | rfl <;> simp [pLt, pAnd]
-
 /-- the bound for `exPs` (A = 2), `max = 1`: 3·(1 + 2) + 1 = 10 draws always suffice -/
 example : 3 * nodes 2 1 + 1 = 10 := by decide
 
 /-- a concrete instance: a well-typed tape of 10 draws makes `genFull exPs 1 1` return (the run uses 5) -/
 example : ∃ x, genFull exPs 1 1 1 [.randint 1 1 1, .choice 3 0, .choice 3 2, .randint 0 9 4, .choice 3 1,
     .choice 1 0, .choice 1 0, .choice 1 0, .choice 1 0, .choice 1 0] = .ok x :=
-  returns_of_total (gen_total exPs _ 2 exPs_full .full 1 1 1 (by omega) (Or.inl rfl) _) (by decide)
+  total_of_benign (gen_total exPs _ 2 exPs_full .full 1 1 1 (by omega) (Or.inl rfl) _) (by decide)
     (by rw [show genFull exPs 1 1 1 [.randint 1 1 1, .choice 3 0, .choice 3 2, .randint 0 9 4, .choice 3 1,
           .choice 1 0, .choice 1 0, .choice 1 0, .choice 1 0, .choice 1 0] =
           .ok ([pAdd, { pEph with text := "4" }, pTrue], [.choice 1 0, .choice 1 0, .choice 1 0, .choice 1 0, .choice 1 0]) from rfl]
@@ -1118,9 +1041,44 @@ theorem shrink_total
 
 end TotalOps
 
+/-! instances of the hypotheses of the totality theorems on the fixture set `exPs` -/
+
+example (tp : Tape) : Benign (3 * nodes 2 1 + 2) tp (genHalfAndHalf exPs 1 1 2 tp) :=
+  gen_half_total exPs _ 2 exPs_full 1 1 2 (by omega) (Or.inr rfl) tp
+
+example (tp : Tape) : Benign 5 tp (cxOnePointLeafBiased [pAdd, pOne, pOne] [pAdd, pTrue, pAdd, pOne, pOne] 0.5 tp) :=
+  cxlb_total exSub_refl exSub_trans 0.5 tp (wellFormed_iff_typed.2 ex_ty3) (wellFormed_iff_typed.2 ex_ty5)
+
+example (tp : Tape) : Benign (3 * nodes 2 2 + 2) tp (mutUniform [pAdd, pOne, pOne] (generate .grow exPs 0 2) tp) :=
+  mutUniform_gen_total exPs_ok exPs_full .grow 0 2 (by omega) tp
+    (by intro p hp; simp at hp; rcases hp with rfl | rfl <;> decide) (wellFormed_iff_typed.2 ex_ty3)
+
+example (tp : Tape) : Benign 3 tp (mutNodeReplacement [pAdd, pOne, pOne] exPs tp) :=
+  nodeRepl_total exPs_ok tp (by
+    intro p hp; simp at hp
+    rcases hp with rfl | rfl
+    · exact ⟨by decide, fun _ => ⟨pAdd, by simp [exPs, pAdd], rfl⟩⟩
+    · exact ⟨fun _ => by simp [exPs, pOne], by decide⟩)
+
+example (tp : Tape) : Benign 5 tp (mutEphemeral [pAdd, pEph, pOne] false tp) := ephemeral_total false tp
+
+example (tp : Tape) : Benign (2 * 2 + 4) tp (mutInsert [pAdd, pOne, pOne] exPs tp) :=
+  insert_total exSub_refl exSub_trans exPs_ok rfl (A := 2)
+    (by intro τ p hp
+        simp only [exPs] at hp
+        split at hp
+        · simp at hp; rcases hp with rfl | rfl | rfl <;> simp [pAdd, pLt, pAnd, exPs]
+        · split at hp
+          · simp at hp; rcases hp with rfl | rfl <;> simp [pLt, pAnd, exPs]
+          · simp at hp)
+    tp (wellFormed_iff_typed.2 ex_ty3)
+
+example (tp : Tape) : Benign 2 tp (mutShrink [pAdd, pAdd, pOne, pTrue, pOne] tp) :=
+  shrink_total exSub_refl exSub_trans tp (r := 1) (wellFormed_iff_typed.2 (by decide))
+
 example : Benign 3 [.pick 1 1, .choice 2 0, .choice 3 0]
     (cxOnePoint [pAdd, pOne, pOne] [pAdd, pTrue, pAdd, pOne, pOne] [.pick 1 1, .choice 2 0, .choice 3 0]) :=
-  cx_total exSub_refl exSub_trans _ ex_wf3 ex_wf5
+  cx_total exSub_refl exSub_trans _ (wellFormed_iff_typed.2 ex_ty3) (wellFormed_iff_typed.2 ex_ty5)
 
 /-! ## The pools -/
 
@@ -1141,5 +1099,34 @@ theorem add_pools_ok (sub : Nat → Nat → Bool)
     exact h2 e he x hxe
 
 example : (dictGet ([pTrue, pAdd, pLt].foldl (addPrim exSub) ⟨[], []⟩).terms 1) = [pTrue] := by decide
+
+/-- the primitive set a sequence of `_add` calls builds: the two dictionaries read through `dictGet`
+(a missing key is the empty list of the `defaultdict`) -/
+def psetOfAdds (sub : Nat → Nat → Bool) (nodes : List Prim) (ret termsCount primsCount : Nat) : Pset :=
+  let ds := nodes.foldl (addPrim sub) ⟨[], []⟩
+  ⟨sub, dictGet ds.prims, dictGet ds.terms, ret, termsCount, primsCount⟩
+
+/-- **Bridge `_add` → `PsetOK`.**  Whatever the order of the registrations, the primitive set built by
+`PrimitiveSetTyped._add` satisfies the hypothesis `PsetOK` of the generator / operator theorems, provided
+`issubclass` is a preorder and every registered `Primitive` has at least one argument and every registered
+terminal / ephemeral none.  The last two conditions are exactly what is ASSUMED about the registrations:
+`_add` itself accepts a zero-argument `Primitive` (it is modelled: it lands in `primitives[τ]` like any other
+primitive and `generate` may then place it as a leaf above the requested depth), which the property's
+quantifier ("primitives of arity 1..3") excludes. -/
+theorem psetOK_of_adds (sub : Nat → Nat → Bool) (refl : ∀ a, sub a a = true)
+    (trans : ∀ a b c, sub a b = true → sub b c = true → sub a c = true) (nodes : List Prim) (ret tc pc : Nat)
+    (harity : ∀ p ∈ nodes, (p.kind = .prim → p.args ≠ []) ∧ (p.kind ≠ .prim → p.args = [])) :
+    PsetOK (psetOfAdds sub nodes ret tc pc) := by
+  obtain ⟨h1, h2⟩ := foldl_addPrim_invQ (Q1 := fun p => p.args ≠ []) (Q2 := fun p => p.args = []) trans nodes ⟨[], []⟩
+    harity (by intro e he; simp at he) (by intro e he; simp at he)
+  refine ⟨refl, trans, ?_, ?_⟩
+  · intro τ p hp
+    obtain ⟨e, he, rfl, hxe⟩ := dictGet_mem hp
+    exact h1 e he p hxe
+  · intro τ p hp
+    obtain ⟨e, he, rfl, hxe⟩ := dictGet_mem hp
+    exact h2 e he p hxe
+
+example : ∀ p ∈ [pTrue, pAdd, pLt, pOne], (p.kind = .prim → p.args ≠ []) ∧ (p.kind ≠ .prim → p.args = []) := by decide
 
 end C11
